@@ -67,14 +67,22 @@ pub struct VxSigArray { pub v: Vec<BitcoinSignature> }      // serde_bolt::Array
 pub uninterp spec fn key_of_wire(k: PubKey) -> PublicKey;               // PublicKey::from_slice(&key.0)
 pub uninterp spec fn secret_of_wire(k: DisclosedSecret) -> SecretKey;   // SecretKey::from_slice(&secret.0)
 pub uninterp spec fn sig_of_wire(s: VxWireSig) -> Signature;            // ecdsa::Signature::from_compact(&sig.0)
-pub uninterp spec fn wire_of_sig(s: Signature) -> BitcoinSignature;     // to_bitcoin_sig
+// to_bitcoin_sig (verified below): the 64-byte compact form, sighash type ALL
+pub uninterp spec fn compact_of(s: Signature) -> [u8; 64];              // sig.serialize_compact()
+pub open spec fn wire_of_sig(s: Signature) -> BitcoinSignature { BitcoinSignature { signature: VxWireSig { sig64: compact_of(s) }, sighash: sighash_all_spec() } }
+#[verifier::external_body] pub fn vx_wire_sig(s: &Signature) -> (r: VxWireSig) ensures r.sig64 == compact_of(*s) { unimplemented!() }
 pub struct VxBadKey { pub p: u8 }
 #[verifier::external_body] pub fn vx_pubkey_from_wire(k: &PubKey) -> (r: Result<PublicKey, VxBadKey>) ensures r.is_ok() ==> r->Ok_0 == key_of_wire(*k) { unimplemented!() }
 #[verifier::external_body] pub fn vx_secret_from_wire(k: &DisclosedSecret) -> (r: Result<SecretKey, VxBadKey>) ensures r.is_ok() ==> r->Ok_0 == secret_of_wire(*k) { unimplemented!() }
 #[verifier::external_body] pub fn vx_sig_from_wire(k: &BitcoinSignature) -> (r: Result<Signature, VxBadKey>) ensures r.is_ok() ==> r->Ok_0 == sig_of_wire(k.signature) { unimplemented!() }
-#[verifier::external_body] pub fn to_bitcoin_sig(s: Signature) -> (r: BitcoinSignature) ensures r == wire_of_sig(s) { unimplemented!() }
 pub uninterp spec fn sighash_all_spec() -> u8;
 #[verifier::external_body] pub fn vx_sighash_all() -> (r: u8) ensures r == sighash_all_spec() { unimplemented!() }
+
+//@fn vls-protocol-signer/src/handler.rs :: - :: to_bitcoin_sig props=C04
+//@sigsub /ecdsa::Signature/ => Signature
+    ensures r == wire_of_sig(sig),                                        //[C04.handler.reply-signature-is-the-compact-form-with-sighash-all]
+//@sub /Signature\(sig\.serialize_compact\(\)\)/ => vx_wire_sig(&sig)
+//@end
 
 // ---------------------------------------------------------------- the HTLC lists a message denotes (reference, from the meaning
 // of the wire fields: side 0 = offered by this node, 1 = offered by the peer; amount in millisatoshi; a commitment carries whole
